@@ -199,6 +199,7 @@ func (p *Parser) parseBuffer(buf []byte, last bool) error {
 		case skipNewline:
 			p.line++
 			p.noff = off
+			i = 0
 			for i, b = range buf[off+1:] {
 				if spaceMap[b] != skipChar {
 					break
@@ -328,6 +329,7 @@ func (p *Parser) parseBuffer(buf []byte, last bool) error {
 			p.num.Reset()
 			p.mode = digitMap
 			p.num.I = uint64(b - '0')
+			i = 0
 			for i, b = range buf[off+1:] {
 				if digitMap[b] != numDigit {
 					break
@@ -339,7 +341,7 @@ func (p *Parser) parseBuffer(buf []byte, last bool) error {
 				}
 				p.num.I = p.num.I*10 + uint64(b-'0')
 			}
-			if digitMap[b] == numDigit {
+			if off+1 < len(buf) && digitMap[b] == numDigit {
 				off++
 			}
 			off += i
@@ -459,6 +461,7 @@ func (p *Parser) parseBuffer(buf []byte, last bool) error {
 			p.line++
 			p.noff = off
 			p.mode = afterMap
+			i = 0
 			for i, b = range buf[off+1:] {
 				if spaceMap[b] != skipChar {
 					break
